@@ -85,7 +85,7 @@ def run(tier, replay=None):
                                     "names": "every pair of name slots sharing a pool name + mangled-name patterns (thorough: all pool names, permutations, triples)",
                                     "concat": "all group forests with <= %d groups, depth <= 3 over %s (paths that join to the same string)" % (3 if quick else 4, names.CPOOL[:5] if quick else names.CPOOL),
                                     "attr": "19 string attribute kinds x tokens %s" % (names.STRING_TOKENS_QUICK if quick else names.STRING_TOKENS),
-                                    "num": "16 numeric attribute kinds x literal forms %s + ids beyond the header field type" % (names.NUMERIC_FORMS[:8] if quick else names.NUMERIC_FORMS),
+                                    "num": "16 numeric attribute kinds x literal forms %s + ids beyond the header field type + min, min+1, max-1, max of every integer primitive as minValue / maxValue / nullValue / constant / enum value" % (names.NUMERIC_FORMS[:8] if quick else names.NUMERIC_FORMS),
                                     "cli": "kinds + name-clash schemas compiled with --schema-name (a fresh name, `messages`, the first message's name) and / or --inject-include (plain and in a subdirectory): all of the above under the overriding name, package trait = the XML's, every generated header pulls in the injected header",
                                     "kinds / catalogue / headers": "as in C01/C17"},
                        "checks_per_accepted_schema": "every generated header compiled on its own; explicit instantiation of every view class for char / unsigned char / std::byte + by-name use of every type, enumerator, choice, message, tag; (names, concat, kinds, catalogue, headers) additionally the complete accessor driver (random access, every cursor form, by-tag, header fillers) and the traits TU (names must equal the schema's)",
